@@ -735,7 +735,11 @@ func main() {
 			w.WriteHeader(200)
 		}))
 		fwd := forward.New(false)
+		fwd.Transport = &http.Transport{MaxIdleConnsPerHost: 4 * G} // keep the connections: thousands of one-shot ones exhaust the loopback's ports
 		nf := N/3 + 1
+		if nf > 200 {
+			nf = 200
+		}
 		parallel(G, nf, func(gi, i int) {
 			id := fmt.Sprintf("%d", gi)
 			req := httptest.NewRequest(http.MethodGet, backend.URL+"/x", nil)
@@ -781,6 +785,9 @@ func main() {
 			fail("Webhook: %v", err)
 		} else {
 			nw := N/10 + 2
+			if nw > 40 {
+				nw = 40
+			}
 			var failed int64
 			parallel(G, nw, func(gi, i int) {
 				if err := effect.Exec(); err != nil {
